@@ -2,6 +2,7 @@
 package engines
 
 import (
+	_ "polysim/engines/btcsel"
 	_ "polysim/engines/e1"
 	"polysim/engines/lc"
 	_ "polysim/engines/lceth"
